@@ -275,14 +275,22 @@ def make_object(rng, rs, variant):
     return ph
 
 
-def cells_equal(run, a, b, what, case):
-    """cells to the printed precision: lattice %21.15f, coordinates %18.15f, masses %f, moments %.8f"""
+def cells_equal(run, a, b, what, case, mat=None):
+    """cells to the printed precision: lattice %21.15f, coordinates %18.15f, masses %f, moments %.8f.
+    mat: for a cell that load recomputes from the printed unit cell (supercell, primitive cell) the matrix it is
+    derived with; the printed rounding of the unit cell is carried through it (and its inverse for positions)."""
     bad = []
+    sl = sp = 1.0
+    if mat is not None:
+        m = np.array(mat, dtype=float).reshape(3, 3)
+        sl = 1.0 + np.abs(m).sum(axis=0).max() + np.abs(m).sum(axis=1).max()
+        mi = np.linalg.inv(m)
+        sp = 1.0 + np.abs(mi).sum(axis=0).max() + np.abs(mi).sum(axis=1).max()
     if list(a.symbols) != list(b.symbols):
         bad.append("symbols %s vs %s" % (list(a.symbols), list(b.symbols)))
-    if not within_decimals(a.cell, b.cell, 15):
+    if not within_decimals(a.cell, b.cell, 15, sl):
         bad.append("lattice differs by %.3g" % maxdiff(a.cell, b.cell))
-    if not within_decimals(a.scaled_positions, b.scaled_positions, 15):
+    if not within_decimals(a.scaled_positions, b.scaled_positions, 15, sp):
         bad.append("positions differ by %.3g" % maxdiff(a.scaled_positions, b.scaled_positions))
     if (a.masses is None) != (b.masses is None) or (a.masses is not None and not within_decimals(a.masses, b.masses, 6)):
         bad.append("masses %s vs %s" % (a.masses, b.masses))
@@ -409,8 +417,8 @@ def roundtrip(run, lines, meta, ph, v, case):
 
         # ---- the property: what comes back equals what was written, to the printed precision
         ok = cells_equal(run, ph.unitcell, ph2.unitcell, "unit cell", case)
-        ok &= cells_equal(run, ph.supercell, ph2.supercell, "supercell", case)
-        ok &= cells_equal(run, ph.primitive, ph2.primitive, "primitive cell", case)
+        ok &= cells_equal(run, ph.supercell, ph2.supercell, "supercell", case, ph.supercell_matrix)
+        ok &= cells_equal(run, ph.primitive, ph2.primitive, "primitive cell", case, ph.primitive_matrix)
         if not np.array_equal(ph.supercell_matrix, ph2.supercell_matrix):
             run.violation("Phonopy.save/load", "matrix-not-reproduced", "supercell matrix", case)
         if not within_decimals(ph.primitive_matrix, ph2.primitive_matrix, 15):
@@ -1219,7 +1227,13 @@ def part_relabel(run, rng, rs, lines, meta):
             v["dataset"] = "t1"
         case = dict(v, note="unit cell relabelled by gen.UNIMODULAR[%r] (det %+d): %s" % (
             mname, int(round(np.linalg.det(np.array(gen.UNIMODULAR[mname])))), "left-handed" if mname in det_minus else "right-handed"))
-        ph = make_object(rng, rs, v)
+        try:
+            ph = make_object(rng, rs, v)
+        except Exception as e:  # noqa: BLE001
+            # not a clause of this property (nothing was saved yet), but nothing can be checked either: raise the alarm as such
+            run.broke("precondition", "a valid crystal described by relabelled lattice vectors (%s, det %+d) could not be set up as a Phonopy object: %s: %s"
+                      % (mname, -1 if mname in det_minus else 1, type(e).__name__, str(e)[:200]), case)
+            continue
         if ph.unitcell.volume * (1 if mname in det_plus else -1) <= 0:
             run.broke("harness", "relabelled cell has the wrong handedness", case)
         roundtrip(run, lines, meta, ph, v, case)
